@@ -76,7 +76,7 @@ pub fn cfgs(thorough: bool) -> Vec<Cfg> {
 }
 
 pub fn run(rep: &mut Report, thorough: bool) {
-    rep.rule = "for each configuration (MAC, self-IP set, deny set): destination MACs = authorised set + every single-bit flip of every member + strangers; EtherType all 65536 values; IP protocol / next header all 256 values; source IPs = deny set + every single-bit flip; destination IP / ARP target / ND target = self set + every single-bit flip + multicast/broadcast forms; each over every reply-eliciting base frame; judged by the reference predicate of the statement and the reply-source invariant".into();
+    rep.rule = "for each configuration (MAC, self-IP set, deny set): destination MACs = authorised set + every single-bit flip of every member + strangers; EtherType all 65536 values; IP protocol / next header all 256 values; source IPs = deny set + every single-bit flip; destination IP / ARP target / ND target = self set + every single-bit flip + multicast/broadcast forms; each over every reply-eliciting base frame; judged by the reference predicate of the statement and the reply-source invariant; eliciting frames include a STUN CHANGE-REQUEST (change-IP + change-port); configurations include each list alone".into();
     rep.assumptions = vec!["frames shorter than an Ethernet header must not be answered (nothing can be addressed to the responder)".into()];
     for (ci, cfg) in cfgs(thorough).iter().enumerate() {
         let tag = format!("cfg{}", ci);
@@ -150,6 +150,20 @@ pub fn run(rep: &mut Report, thorough: bool) {
             dsts.push(*s);
             for b in 0..s.nbits() {
                 dsts.push(s.flip_bit(b));
+            }
+            // other spellings of a handled IPv4 address inside IPv6: IPv4-mapped, IPv4-compatible,
+            // 6to4, NAT64 well-known prefix (none of them is the handled address)
+            if let Ip::V4(a) = s {
+                for pre in ["::ffff:", "::", "64:ff9b::"] {
+                    dsts.push(Ip::parse(&format!("{}{}.{}.{}.{}", pre, a[0], a[1], a[2], a[3])));
+                }
+                dsts.push(Ip::parse(&format!("2002:{:02x}{:02x}:{:02x}{:02x}::1", a[0], a[1], a[2], a[3])));
+            }
+        }
+        // the same for source addresses on the deny list
+        for d in cfg.deny_ips.clone() {
+            if let Ip::V4(a) = d {
+                srcs.push(Ip::parse(&format!("::ffff:{}.{}.{}.{}", a[0], a[1], a[2], a[3])));
             }
         }
         let mut pairs: Vec<(Kind, Ip, Ip)> = Vec::new();
